@@ -55,7 +55,7 @@ class C13(Check):
 
     def strata(self, tier):
         s = [('S-clean', 3), ('S-fault', 3), ('S-noclear', 3), ('S-opname', 2), ('S-shared', 3), ('S-file', 1),
-             ('S-all', 2), ('S-reuse', 2), ('S-jax', 1), ('S-torch', 1)]
+             ('S-all', 2), ('S-reuse', 2), ('S-jax', 1), ('S-torch', 1), ('S-long-source', 0.25)]
         if tier == 'thorough':
             s.append(('S-fortran', 1))     # f2py builds: several models compiled to extension modules in one process
         return s
@@ -289,6 +289,28 @@ class C13(Check):
         return ops, kind
 
     def generate(self, rng, stratum, tier):
+        if stratum == 'S-long-source':
+            # sizes toy models never reach: generated sources of more than 8 kB (150-200 single-operator nodes, not vectorized);
+            # the second model equals the first except for the formula of its LAST node (same variables, same argument list)
+            n = rng.randint(150, 200)
+            a = models.gen_net(rng, n_nodes=n, libs=('lin',), max_edges=rng.randint(0, 6), uniq='', build='python')
+            a['name'] = 'c1'
+            b = copy.deepcopy(a)
+            b['name'] = 'c2'
+            last = list(b['nodes'])[-1]
+            ntk = b['nodes'][last]
+            b['ops']['linm'] = {'lib': 'linm', 'name': 'lin', 'defaults': dict(b['ops']['lin']['defaults'])}
+            b['nts'][ntk] = {'name': b['nts'][ntk]['name'], 'ops': ['linm'], 'var': {'linm': b['nts'][ntk]['var']['lin']}}
+            kw = {'vectorize': False, 'in_place': True, 'clear': True, 'float_precision': 'float64', 'step_size': 1e-3}
+            ops = []
+            for wid, sp in ((1, a), (2, b)):
+                ops += [{'wf': wid, 'op': 'construct', 'obj': f'M{wid}', 'spec': sp, 'pool': None, 'fname': f'm_w{wid}'},
+                        {'wf': wid, 'op': 'compile', 'obj': f'M{wid}', 'api': 'get_run_func', 'kw': dict(kw), 'handle': f'F{wid}_0',
+                         'func_name': 'vf'},
+                        {'wf': wid, 'op': 'probe', 'handle': f'F{wid}_0'}]
+            if rng.random() < 0.5:
+                ops = ops[3:] + ops[:3]
+            return {'ops': ops, 'stale': None, 'fault_kinds': []}
         K = rng.randint(2, 6 if tier == 'thorough' else 4)     # deeper histories in the thorough tier
         if stratum == 'S-fortran':
             K = rng.randint(2, 3)       # every observation is an f2py build (in the history and in the reference)
